@@ -42,7 +42,7 @@ CENTRE2 = {"cls": "UNet", "sig": "svp", "norm": True, "flags": "mixed", "bias": 
 def _dims(d):
     return {
         "cls": ["ResNet", "DilResNet", "UNet", "ConvBlock", "ConvBlockPre"],
-        "sig": ["sv", "v", "svp", "pv", "vs-unsorted"],
+        "sig": ["sv", "v", "svp", "pv", "vs-unsorted", "sp", "p"],
         "depth": [2, 1],
         "size": [1, 2],
         "num_conv": [1, 2],
